@@ -36,12 +36,14 @@
 (*                                                                         *)
 (* Intended design vs code.  The rename-to-backup of a live part happens   *)
 (* BEFORE the SQL commit.  The protocol is crash-safe only with a recovery *)
-(* pass at Start that, per store directory, restores a *.txbackup.* file   *)
-(* whose part id the database still references (and whose final file is    *)
-(* gone) and removes every other backup and temp file.  That is the        *)
-(* intended design (Deviations = {}).  The code has no such pass           *)
-(* (filesystemPartStore.Start only creates the root directory): named      *)
-(* deviation D-C10-delete-window.                                          *)
+(* pass at Start that, per store directory, moves a *.txbackup.* file back  *)
+(* when the part file itself is gone (either the transaction never         *)
+(* committed and the metadata still references the part, or it committed   *)
+(* and the restored file is an unreferenced part that garbage collection   *)
+(* reclaims - no database access is needed to decide) and removes temp     *)
+(* files.  That is the intended design (Deviations = {}).  The code has no *)
+(* such pass (filesystemPartStore.Start only creates the root directory):  *)
+(* named deviation D-C10-delete-window.                                    *)
 (*                                                                         *)
 (* Part ids are fresh for every PutPart (partstore.NewRandomPartId at all  *)
 (* call sites), so PutPart's rename(final->backup) never finds a file; the *)
@@ -274,9 +276,8 @@ After(st, p, post, n) == FoldLeft(LAMBDA s, ins : Exec(s, ins, post), st, SubSeq
 \* --------------------------------------------------------- crash and restart
 \* Intended design: recovery at Start.  The code: nothing (deviation).
 RecoverDir(db, d, fs) ==
-  {f \in fs : f.kind = "final"} \cup
+  {f \in fs : f.kind # "tmp" /\ ~(f.kind \in {"bak", "bakp"} /\ ~\E h \in fs : h.kind = "final" /\ h.id = f.id)} \cup
   {File("final", f.id, f.c) : f \in {g \in fs : /\ g.kind \in {"bak", "bakp"}
-                                                /\ Referenced(db, d, g.id)
                                                 /\ ~\E h \in fs : h.kind = "final" /\ h.id = g.id}}
 RestartedD(st, devs) ==
   IF WindowTag \in devs THEN st
